@@ -64,6 +64,7 @@ type Case struct {
 	ErrRead bool        `json:"err_read"` // body ends with an injected error instead of EOF
 	HCode   uint32      `json:"hcode"`    // status code the handler returns (0 = OK)
 	HSend   int         `json:"hsend"`    // replies a streaming handler sends
+	HWait   bool        `json:"hwait"`    // the handler outlasts a short deadline: it waits for its context (at most 60 ms) before replying
 	HMeta   bool        `json:"hmeta"`    // handler sets header/trailer metadata
 }
 
@@ -209,6 +210,12 @@ func newMux(c Case, hs *hstate) *larking.Mux {
 		hs.recv++
 		hs.mu.Unlock()
 		meta(ctx)
+		if c.HWait {
+			select {
+			case <-ctx.Done():
+			case <-time.After(60 * time.Millisecond):
+			}
+		}
 		if err := herr(); err != nil {
 			return nil, err
 		}
@@ -234,6 +241,12 @@ func newMux(c Case, hs *hstate) *larking.Mux {
 			hs.mu.Unlock()
 			if single || n > len(c.Body)+4 {
 				break // the oracle below reports runaway streams
+			}
+		}
+		if c.HWait {
+			select {
+			case <-ss.Context().Done():
+			case <-time.After(60 * time.Millisecond):
 			}
 		}
 		for i := 0; i < c.HSend; i++ {
@@ -514,7 +527,7 @@ var hostileQueries = []string{"", "f_int32=1", "f_int32=x", "nope=1", "r_int32=1
 	"o_leaf.count=1&o_string=x", "nest=1", "nest.leaf=1", "ts=x", "ts=2020-01-01T00:00:00Z", "mask=a,b", "w_string=%22", "w_string=\"", "w_bytes=%", "f_bytes=!!", "f_enum=PURPLE", "http_body.data=QQ",
 	"http_body.content_type=x", "=1", "&&&", "a=b=c", "nest..leaf=1", ".=1", "f_string=" + strings.Repeat("x", 300), "%zz=1", "r_string=a&r_string=b&r_string=", "body_leaf.color=7", "f_double=1e999", "f_float=NaN"}
 
-var headerPool = [][2]string{{"Content-Type", "application/x-plain"}, {"Accept", "application/x-plain"}, {"Content-Type", "application/json"}, {"Content-Type", "application/protobuf"}, {"Content-Type", "application/octet-stream"}, {"Content-Type", "google.api.HttpBody"},
+var headerPool = [][2]string{{"Grpc-Timeout", "20m"}, {"Grpc-Timeout", "5m"}, {"Grpc-Timeout", "1n"}, {"Grpc-Timeout", "0S"}, {"Grpc-Timeout", "99999999H"}, {"Grpc-Timeout", "5s"}, {"Content-Type", "application/x-plain"}, {"Accept", "application/x-plain"}, {"Content-Type", "application/json"}, {"Content-Type", "application/protobuf"}, {"Content-Type", "application/octet-stream"}, {"Content-Type", "google.api.HttpBody"},
 	{"Content-Type", "text/plain"}, {"Content-Type", "application/grpc+json"}, {"Content-Type", "application/grpc+nope"}, {"Content-Type", "application/grpc-web-text+proto"}, {"Content-Type", ""},
 	{"Accept", "google.api.HttpBody"}, {"Accept", "*/*"}, {"Accept", "application/protobuf;q=0.5, */*;q=0"}, {"Accept", ",,,"}, {"Accept-Encoding", "gzip"}, {"Accept-Encoding", "*"},
 	{"Content-Encoding", "gzip"}, {"Content-Encoding", "br"}, {"Content-Encoding", "identity"}, {"Grpc-Encoding", "gzip"}, {"Grpc-Encoding", "nope"}, {"Grpc-Encoding", "identity"},
@@ -753,6 +766,7 @@ func genValidish(t *rapid.T) Case {
 	}
 	c.HCode = rapid.SampledFrom([]uint32{0, 0, 0, 3, 5, 13, 16, 17, 99, 1<<31 - 1}).Draw(t, "hcode")
 	c.HSend = rapid.IntRange(0, 3).Draw(t, "hsend")
+	c.HWait = rapid.IntRange(0, 7).Draw(t, "hwait") == 0
 	c.HMeta = rapid.Bool().Draw(t, "hmeta")
 	return c
 }
@@ -815,6 +829,7 @@ func genCase(t *rapid.T) Case {
 	c.ErrRead = rapid.IntRange(0, 7).Draw(t, "errRead") == 0
 	c.HCode = rapid.SampledFrom([]uint32{0, 0, 0, 3, 5, 13, 16, 17, 99, 1<<31 - 1}).Draw(t, "hcode")
 	c.HSend = rapid.IntRange(0, 3).Draw(t, "hsend")
+	c.HWait = rapid.IntRange(0, 7).Draw(t, "hwait") == 0
 	c.HMeta = rapid.Bool().Draw(t, "hmeta")
 	return c
 }
@@ -827,7 +842,7 @@ func classify(c Case, o outcome) (string, []string) {
 	cl := []string{"entry=" + c.Entry, "stage=" + o.stage, "status=" + sc, fmt.Sprintf("config=%d", c.Config)}
 	key := ""
 	if o.stage != "entry" {
-		key = fmt.Sprintf("%s|%s|%s|%d|%d|%d|%v|%s|%s|%v", c.Entry, o.stage, sc, c.HCode, c.Config, c.HSend, c.HMeta, c.Path, c.Query, c.Headers)
+		key = fmt.Sprintf("%s|%s|%s|%d|%d|%d|%v|%v|%s|%s|%v", c.Entry, o.stage, sc, c.HCode, c.Config, c.HSend, c.HMeta, c.HWait, c.Path, c.Query, c.Headers)
 	}
 	return key, cl
 }
